@@ -83,6 +83,23 @@ Definition expected_adif (p : adif_p) : list Z :=
   | p0 :: _ => [nth (Z.to_nat (pc_sfi p0)) spec_aac_freqs 0; pce_channels p0; ad_bitrate p]
   end.
 
+(* field ranges (the bit widths of the syntax) *)
+Definition opt_in (w : Z) (o : option Z) : Prop := match o with None => True | Some v => 0 <= v < 2 ^ w end.
+Definition elems_in (count_bits elem_bits : Z) (l : list Z) : Prop :=
+  zlen l < 2 ^ count_bits /\ Forall (fun e => 0 <= e < 2 ^ elem_bits) l.
+Definition valid_pce (p : pce_p) : Prop :=
+  0 <= pc_tag p < 16 /\ 0 <= pc_object_type p < 4 /\ 0 <= pc_sfi p < 16 /\
+  elems_in 4 5 (pc_front p) /\ elems_in 4 5 (pc_side p) /\ elems_in 4 5 (pc_back p) /\
+  elems_in 2 4 (pc_lfe p) /\ elems_in 3 4 (pc_assoc p) /\ elems_in 4 5 (pc_cc p) /\
+  opt_in 4 (pc_mono p) /\ opt_in 4 (pc_stereo p) /\ opt_in 3 (pc_matrix p) /\ elems_in 8 8 (pc_comment p).
+Definition valid_adif (p : adif_p) : Prop :=
+  match ad_copyright p with None => True | Some c => zlen c = 9 /\ Forall (fun b => 0 <= b < 256) c end /\
+  0 <= ad_original p < 2 /\ 0 <= ad_home p < 2 /\ 0 <= ad_bitstream_type p < 2 /\ 0 <= ad_bitrate p < 2 ^ 23 /\
+  0 <= ad_fullness p < 2 ^ 20 /\ 1 <= zlen (ad_pces p) <= 16 /\ Forall valid_pce (ad_pces p).
+(* [sample_rate; channels; bitrate; length numerator; length denominator] for a raw data stream of n bytes *)
+Definition expected_adif_info (p : adif_p) (n : Z) : list Z :=
+  expected_adif p ++ (if ad_bitrate p =? 0 then [0; 1] else [8 * n; ad_bitrate p]).
+
 (* ------------------------------------------------------------------ CODE side *)
 (* BitReader plus the number of bytes a `seek(n_bytes, 1)` in skip() went past the end of the file (tell() reports them) *)
 Definition ard : Type := bitreader * Z.
@@ -173,36 +190,6 @@ Definition decode_adif (f : list Z) : result (list Z) :=
       else Ok [rate; channels; bitrate; 8 * left; bitrate]
     | Some _ => Raise EAssert
     end.
-
-(* ------------------------------------------------------------------ finite domain (vm_compute) *)
-(* channel layouts: every number of front/side/back elements is hit with single and pair elements mixed *)
-Definition adif_layouts : list (list Z * list Z * list Z * list Z) :=
-  [([0], [], [], []); ([16], [], [], []); ([1; 18], [], [], []); ([0; 17], [], [18], [3]); ([0; 17], [18], [19], [0]);
-   ([0; 17; 18], [19; 4], [21; 6; 23], [1; 2; 3]);
-   ([16; 17; 18; 19; 20; 21; 22; 23; 24; 25; 26; 27; 28; 29; 30], [16; 17; 18; 19; 20; 21; 22; 23; 24; 25; 26; 27; 28; 29; 30],
-    [16; 17; 18; 19; 20; 21; 22; 23; 24; 25; 26; 27; 28; 29; 30], [0; 1; 2]);
-   ([], [], [], [])].
-Definition adif_extras : list (list Z * list Z * option Z * option Z * option Z * list Z) :=
-  [([], [], None, None, None, []); ([5], [17; 2], Some 9, None, Some 5, [104; 105]);
-   ([1; 2; 3; 4; 5; 6; 7], [16; 1; 18; 3; 20; 5; 22; 7; 24; 9; 26; 11; 28; 13; 30], None, Some 15, None, [0]);
-   ([], [31], Some 0, Some 0, Some 7, [255; 0; 255])].
-Definition zrange_nat (n : nat) : list Z := map Z.of_nat (seq 0 n).
-Definition adif_domain : list adif_p :=
-  flat_map (fun cid => flat_map (fun bstype => flat_map (fun bitrate => flat_map (fun sfi => flat_map (fun lay =>
-    map (fun ex =>
-      let '(front, side, back, lfe) := lay in
-      let '(assoc, cc, mono, stereo, matrix, comment) := ex in
-      let p0 := mkPce (sfi mod 16) (sfi mod 4) sfi front side back lfe assoc cc mono stereo matrix comment in
-      mkAdif cid (sfi mod 2) (bstype mod 2) (bstype / 2) bitrate (if sfi mod 2 =? 0 then 0 else 1048575)
-        (if bstype <? 2 then [p0] else (* variable rate: further programs follow *)
-           [p0; mkPce 1 1 3 [17] [] [] [] [] [] None None None []; mkPce 2 0 15 [0; 16] [16] [0] [5] [6] [7] (Some 1) None None [33]]))
-      adif_extras) adif_layouts) (zrange_nat 16)) [0; 1; 128000; 8388607]) [0; 1; 2; 3])
-    [None; Some [255; 1; 2; 3; 4; 5; 6; 7; 128]].
-Definition adif_check (p : adif_p) : bool :=
-  match decode_adif (build_adif p (zeros 100)) with
-  | Ok l => list_eqb l (expected_adif p ++ (if ad_bitrate p =? 0 then [0; 1] else [800; ad_bitrate p]))
-  | Raise _ => false
-  end.
 
 Definition aac_table_diffs : list (Z * Z * Z) := list_diff gen_aac_freqs spec_aac_freqs.
 
